@@ -6,6 +6,7 @@
   and the whole start-up sequence and main loop of `Model.process` is run from the specification alone:
 
       simulate : Spec → Option (List (Stock × Flow))           -- one entry (stock, flows) per time index
+  (loop state: the stocks and the current values of the derivative parameters)
 
   Composition of pieces that exist already (none of them is changed):
     `Engine.step / flushAll`  (one integration step / the initial junction flush),
@@ -24,7 +25,19 @@
     All function parameters are evaluated at every index.  The code evaluates "precompute" parameters once, vectorised, before the
     run (they depend on nothing the run changes: `evalPars_static` in C03Closed.lean), "dynamic" ones at every index, and
     "postcompute" ones after the run (nothing reads them; they may depend on link flows, which are `none` here = no claim).
-    `derivative` parameters and `skip_function` windows are not modelled (such specifications are excluded by the harness).
+    4. skip windows (`Parameter.skip_function = (lo, hi)`, written by `ParameterScenario.get_parset` for function parameters): while
+       `lo ≤ t ≤ hi` neither the function nor the aggregation is evaluated and the databook (scenario) value of step 2 stands — in
+       all three schedules (`Parameter.update` filters the indices, `Model.build` inserts the databook values of a precompute
+       parameter that has a window);
+    5. derivative parameters (`Parameter.derivative`): the loop state carries their current values `d`.  At index `i` every reader
+       sees `d p`; when `update_pars` reaches the parameter in the execution order it evaluates the rate `scale · f(values so far)`
+       and writes `value[i+1] = clip(d p + rate · dt)` (`advVal`, `advStep`); `update_links` of index `i` runs afterwards and still
+       reads `value[i]`.  Index 0: the databook value (`initD`); the Euler step taken by the pre-flush `update_pars` is overwritten
+       by the post-flush one.  Not modelled (refused by `wfSpec`, counted by the harness): a derivative parameter with a skip
+       window (the code goes on stepping with a stale `_dx`, or raises when the window opens at the first point) or that is an
+       aggregation.
+    Several population types need nothing here: a specification is flat (one global index per (parameter, population) that
+    exists), the extraction resolves which variables exist in which population and which populations an aggregation ranges over.
 
   Values are `Option Rat`: `none` = NaN / inf / not modelled (no claim).  A step is defined only when every parameter that drives
   a link has a value; `Engine.step` itself is `none` at a 0/0 junction.
@@ -40,6 +53,7 @@ import AtomicaModel.EngineIO
 import AtomicaModel.Series
 import AtomicaModel.Expr
 import AtomicaModel.Grid
+import AtomicaModel.Params
 namespace Atomica.Closed
 open Atomica Atomica.Engine
 
@@ -79,6 +93,15 @@ structure ParSpec where
   lo : Option Rat              -- `Parameter.limits[0]` (`none` = -inf / no limits)
   hi : Option Rat              -- `Parameter.limits[1]` (`none` = +inf / no limits)
   kind : ParKind
+  /-- `Parameter.skip_function = (lo, hi)`: while `lo ≤ t ≤ hi` the function / aggregation is NOT evaluated and the databook value
+      (for a parameter scenario: the pre-interpolated scenario series) stands.  `Params.Window` is the closed window of the code
+      (`hi = none` is `+inf`, which is what `ParameterScenario.get_parset` writes). -/
+  skip : Option Params.Window := none
+  /-- `Parameter.derivative` ("is derivative" in the framework): the function is the RATE OF CHANGE of the parameter.  The value of
+      index 0 is the databook value; `update_pars` at index `i` evaluates `_dx = scale · f(values of index i)` at the parameter's
+      place in the execution order and writes `value[i+1] = value[i] + _dx · dt`, clipped (`constrain(i+1)`), BEFORE `update_links`
+      of index `i` — which, like every reader at index `i`, sees `value[i]`. -/
+  deriv : Bool := false
   deriving Repr, Inhabited
 
 structure Spec where
@@ -203,21 +226,55 @@ def rawVal (f : Ref → Option Rat) (t : Rat) : ParKind → Option Rat
   | .fn e deps => evalFn e (envOf f deps)
   | .agg avg terms => aggVal f t avg terms
 
-/-- new value of parameter `p` given the values so far: unchanged for a data parameter, `clip(scale · raw)` otherwise -/
+/-- `Parameter.update`: `if skip_function and skip_function[0] <= t[ti] <= skip_function[1]: return` (the same test guards the
+    aggregation block of `update_pars`, the vectorised precompute in `Model.build` and the postcompute loop of `Model.process`) -/
+def skipped (ps : ParSpec) (t : Rat) : Bool := Params.inWin ps.skip t
+
+/-- new value of parameter `p` given the values so far: unchanged for a data parameter and for a derivative parameter (its value of
+    this index was written by the previous step); for a function / aggregation parameter `clip(scale · raw)` outside its skip
+    window and the databook value `clip(interp(data, t) · scale)` inside it -/
 def parVal (s : Spec) (t : Rat) (x : Stock) (cv pv : Vals) (p : Nat) : Option Rat :=
   let ps := s.pars p
+  if ps.deriv then pv p else
   match ps.kind with
   | .data => pv p
-  | k => (rawVal (refVal s.net x cv pv t s.dt) t k).map (fun v => clipLim ps.lo ps.hi (ps.scale * v))
+  | k => if skipped ps t then baseVal ps t
+         else (rawVal (refVal s.net x cv pv t s.dt) t k).map (fun v => clipLim ps.lo ps.hi (ps.scale * v))
 
 def parStep (s : Spec) (t : Rat) (x : Stock) (cv : Vals) (pv : Vals) (p : Nat) : Vals := setAt pv p (parVal s t x cv pv p)
 
-def basePars (s : Spec) (t : Rat) : Vals := fun p => baseVal (s.pars p) t
+/-- the value a derivative parameter will have at the NEXT index, computed when `update_pars` visits it:
+    `_dx = scale_factor · f(dep values of this index)`; `vals[ti+1] = vals[ti] + _dx · dt`; `constrain(ti+1)` -/
+def advVal (s : Spec) (t : Rat) (x : Stock) (cv pv : Vals) (p : Nat) : Option Rat :=
+  let ps := s.pars p
+  match pv p, rawVal (refVal s.net x cv pv t s.dt) t ps.kind with
+  | some v, some f => some (clipLim ps.lo ps.hi (v + ps.scale * f * s.dt))
+  | _, _ => none
 
-/-- all parameter values of time index `i` on stock `x` -/
-def evalPars (s : Spec) (i : Nat) (x : Stock) : Vals :=
+/-- the values the parameters hold before `update_pars` visits anybody at an index: the databook values (`Model.build`), and for a
+    derivative parameter the value `d p` written by the previous step (index 0: the databook value, `initD`) -/
+def basePars (s : Spec) (t : Rat) (d : Vals) : Vals := fun p => if (s.pars p).deriv then d p else baseVal (s.pars p) t
+
+/-- values of the derivative parameters at index 0: `Model.build` inserts the databook values and constrains them
+    (the loop state carries a value for derivative parameters only) -/
+def initD (s : Spec) : Vals := fun p => if (s.pars p).deriv then baseVal (s.pars p) (Grid.point s.start s.dt 0) else none
+
+/-- all parameter values of time index `i` on stock `x`, with `d` = the current values of the derivative parameters -/
+def evalPars (s : Spec) (i : Nat) (x : Stock) (d : Vals) : Vals :=
   let t := Grid.point s.start s.dt i
-  s.porder.foldl (parStep s t x (evalCharacs s x)) (basePars s t)
+  s.porder.foldl (parStep s t x (evalCharacs s x)) (basePars s t d)
+
+/-- one visit of `update_pars`, with the Euler step of a derivative parameter: (values so far, next derivative values) -/
+def advStep (s : Spec) (t : Rat) (x : Stock) (cv : Vals) (st : Vals × Vals) (p : Nat) : Vals × Vals :=
+  (parStep s t x cv st.1 p, if (s.pars p).deriv then setAt st.2 p (advVal s t x cv st.1 p) else st.2)
+
+/-- `update_pars` at index `i`: the values of index `i` and the values of the derivative parameters for index `i+1` -/
+def evalParsD (s : Spec) (i : Nat) (x : Stock) (d : Vals) : Vals × Vals :=
+  let t := Grid.point s.start s.dt i
+  s.porder.foldl (advStep s t x (evalCharacs s x)) (basePars s t d, d)
+
+/-- the values of the derivative parameters at index `i+1` -/
+def nextD (s : Spec) (i : Nat) (x : Stock) (d : Vals) : Vals := (evalParsD s i x d).2
 
 /-! ### closing the loop -/
 
@@ -230,30 +287,31 @@ def linkParsDefined (net : Net) (v : Vals) : Bool :=
     | some p => (v p).isSome
     | none => true)
 
-/-- `update_pars(); update_links()` at index `i`, `update_comps()` to index `i+1` -/
-def stepClosed (s : Spec) (i : Nat) (x : Stock) : Option (Flow × Stock) :=
-  let v := evalPars s i x
+/-- `update_pars(); update_links()` at index `i`, `update_comps()` to index `i+1` (loop state: stocks `x`, derivative values `d`) -/
+def stepClosed (s : Spec) (i : Nat) (x : Stock) (d : Vals) : Option (Flow × Stock) :=
+  let v := evalPars s i x d
   if linkParsDefined s.net v then Engine.step s.net s.dt (pvOf v) x else none
 
-/-- main loop from index `i`, `n` indices: entries `(stock at j, flows at j)` -/
-def runClosed (s : Spec) : Nat → Nat → Stock → Option (List (Stock × Flow))
-  | _, 0, _ => some []
-  | i, n + 1, x =>
-      match stepClosed s i x with
+/-- main loop from index `i`, `n` indices: entries `(stock at j, flows at j)`; the derivative values advance with every index -/
+def runClosed (s : Spec) : Nat → Nat → Stock → Vals → Option (List (Stock × Flow))
+  | _, 0, _, _ => some []
+  | i, n + 1, x, d =>
+      match stepClosed s i x d with
       | none => none
       | some (fl, x') =>
-          match runClosed s (i + 1) n x' with
+          match runClosed s (i + 1) n x' (nextD s i x d) with
           | none => none
           | some rest => some ((x, fl) :: rest)
 
-/-- `update_pars(); flush_junctions()` on the initial stocks -/
+/-- `update_pars(); flush_junctions()` on the initial stocks (the Euler step this first `update_pars` takes is overwritten by the
+    second one after the flush: `vals[1] = vals[0] + …` is an assignment, so the derivative values stay `initD`) -/
 def startClosed (s : Spec) : Option Stock :=
-  let v := evalPars s 0 s.init
+  let v := evalPars s 0 s.init (initD s)
   if linkParsDefined s.net v then flushAll s.net (pvOf v) s.init s.net.jorder else none
 
 /-- a whole simulation with `n` time points -/
 def simulateN (s : Spec) (n : Nat) : Option (List (Stock × Flow)) :=
-  (startClosed s).bind (fun x0 => runClosed s 0 n x0)
+  (startClosed s).bind (fun x0 => runClosed s 0 n x0 (initD s))
 
 def simulate (s : Spec) : Option (List (Stock × Flow)) := simulateN s s.npts
 
@@ -285,13 +343,21 @@ def isData (ps : ParSpec) : Bool :=
   | .data => true
   | _ => false
 
+def isFn : ParKind → Bool
+  | .fn _ _ => true
+  | _ => false
+
+/-- the value of this index is not computed inside the index: a databook parameter, or a derivative parameter (its value of this
+    index was written by the previous step; `_set_exec_order` adds no dependency edge for derivative parameters) -/
+def isFixed (ps : ParSpec) : Bool := ps.deriv || isData ps
+
 /-- the execution order is duplicate-free and topological for the dependency relation: every parameter a function reads is
-    a data parameter or has been evaluated before (`done` = already evaluated) -/
+    a data parameter, a derivative parameter, or has been evaluated before (`done` = already evaluated) -/
 def okOrder (s : Spec) : List Nat → List Nat → Bool
   | _, [] => true
   | done, p :: rest =>
       !(done.contains p)
-      && (parRefsOf (kindRefs (s.pars p).kind)).all (fun q => isData (s.pars q) || done.contains q)
+      && (parRefsOf (kindRefs (s.pars p).kind)).all (fun q => isFixed (s.pars q) || done.contains q)
       && okOrder s (p :: done) rest
 
 def depsBefore (s : Spec) : Bool := okOrder s [] s.porder
@@ -326,6 +392,9 @@ def wfSpec (s : Spec) : Bool :=
   && s.corder.all (fun k => k < s.nK)
   && allBelow s.net.nP (fun p => (isData (s.pars p) || s.porder.contains p) && (kindRefs (s.pars p).kind).all (refOk s false))
   && s.porder.all (fun p => p < s.net.nP)
+  -- a derivative parameter has a function (not an aggregation: `Parameter.update` returns at once for those and `_dx` stays `None`)
+  -- and no skip window (inside one `Parameter.update` returns before `_dx` is refreshed: the Euler step would use a stale rate)
+  && allBelow s.net.nP (fun p => !(s.pars p).deriv || (isFn (s.pars p).kind && (s.pars p).skip.isNone))
 
 /-- decidable: every parameter that drives a junction outflow has a lower limit ≥ 0 that is consistent with its upper limit -/
 def propsClipped (s : Spec) : Bool :=
@@ -345,7 +414,8 @@ def propsClipped (s : Spec) : Bool :=
        { <par> }×nP   <nOrder> <porder…>   <stock…>
   <ref>  = `c i` | `k i` | `p i` | `l i` | `t 0` | `d 0`
   <ts>   = <assumption|nan> <n> t1 v1 … tn vn
-  <par>  = <hasData 0|1> [<ts>] <scale> <lo|-> <hi|-> <kind>
+  <par>  = <hasData 0|1> [<ts>] <scale> <lo|-> <hi|-> <kind> <skip> <deriv 0|1>
+  <skip> = `0` | `1 <lo> <hi|->`                                      (closed window; `-` = +inf)
   <kind> = `D` | `F <nDeps> { <name> <nRefs> <ref>… }… <tree>` | `A <avg 0|1> <nTerms> { <hasW 0|1> [<ts> <scale>] <ref> <hasWv 0|1> [<ref>] }…`
   reply  = `ok <m>` then per computed index ` | <stock…> ; <flows…> ; <pars…>`, then (if m < npts) ` | nan <flush|par|step|big>`;
            `err wf` when `wfSpec` fails.
@@ -421,7 +491,9 @@ def pPar : P ParSpec := do
   let lo ← pOptRatDash
   let hi ← pOptRatDash
   let kind ← pKindP
-  pure { data, scale, lo, hi, kind }
+  let skip ← pOpt (do let wlo ← pRat; let whi ← pOptRatDash; pure (Params.Window.mk wlo whi))
+  let deriv ← pBool
+  pure { data, scale, lo, hi, kind, skip, deriv }
 
 def pSpec : P Spec := do
   let net ← pNet
@@ -444,11 +516,14 @@ def ofArr (a : Array (Option Rat)) : Vals := fun j => a.getD j none
 def evalCharacsA (s : Spec) (x : Stock) : Array (Option Rat) :=
   s.corder.foldl (fun a k => a.setIfInBounds k (charVal s.net x (ofArr a) (s.characs k))) (Array.replicate s.nK none)
 
-def evalParsA (s : Spec) (i : Nat) (x : Stock) : Array (Option Rat) :=
+/-- memoised `evalParsD`: (values of index `i`, derivative values for index `i+1`) -/
+def evalParsA (s : Spec) (i : Nat) (x : Stock) (d : Vals) : Array (Option Rat) × Array (Option Rat) :=
   let t := Grid.point s.start s.dt i
   let cv := ofArr (evalCharacsA s x)
-  s.porder.foldl (fun a p => a.setIfInBounds p (parVal s t x cv (ofArr a) p))
-    ((Array.range s.net.nP).map (fun p => baseVal (s.pars p) t))
+  s.porder.foldl (fun (st : Array (Option Rat) × Array (Option Rat)) p =>
+      (st.1.setIfInBounds p (parVal s t x cv (ofArr st.1) p),
+       if (s.pars p).deriv then st.2.setIfInBounds p (advVal s t x cv (ofArr st.1) p) else st.2))
+    ((Array.range s.net.nP).map (fun p => basePars s t d p), (Array.range s.net.nP).map d)
 
 /-- `Engine.step` stage by stage (as `Engine.handleStep`) -/
 def stepA (net : Net) (dt : Rat) (pvf : Nat → Rat) (x : Stock) : Option (Array (Array Rat) × Array (Array Rat)) :=
@@ -479,21 +554,21 @@ def showVals (n : Nat) (v : Vals) : String :=
 def bitsOf (a : Array (Array Rat)) : Nat :=
   a.foldl (fun m row => row.foldl (fun m r => max m (Nat.log2 r.den + Nat.log2 r.num.natAbs)) m) 0
 
-def loopA (s : Spec) (budget : Nat) : Nat → Nat → Array (Array Rat) → List String → List String × Option String
-  | _, 0, _, acc => (acc.reverse, none)
-  | i, n + 1, xa, acc =>
+def loopA (s : Spec) (budget : Nat) : Nat → Nat → Array (Array Rat) → Array (Option Rat) → List String → List String × Option String
+  | _, 0, _, _, acc => (acc.reverse, none)
+  | i, n + 1, xa, da, acc =>
       -- exact rationals grow quickly in closed loop: stop (reply `nan big`) when a stock needs more than `budget` bits;
       -- the computed prefix is the trajectory of the shorter run (`simulateN_prefix`)
       if bitsOf xa > budget then (acc.reverse, some "big") else
       let x := ofTab xa
-      let va := evalParsA s i x
+      let (va, nda) := evalParsA s i x (ofArr da)
       let v := ofArr va
       if !(linkParsDefined s.net v) then (acc.reverse, some "par") else
       match stepA s.net s.dt (pvOf v) x with
       | none => (acc.reverse, some "step")
       | some (fa, xa') =>
           let sec := showStock s.net x ++ " ; " ++ showFlow s.net (ofTab fa) ++ " ; " ++ showVals s.net.nP v
-          loopA s budget (i + 1) n xa' (sec :: acc)
+          loopA s budget (i + 1) n xa' nda (sec :: acc)
 
 def reply (secs : List String) (stop : Option String) : String :=
   let body := secs.foldl (fun a b => a ++ " | " ++ b) ("ok " ++ toString secs.length)
@@ -506,12 +581,13 @@ def handleSim (args : List String) : Option String :=
     let budget ← pNat
     let s ← pSpec
     if !(wfSpec s) then pure "err wf" else
-    let v0 := ofArr (evalParsA s 0 s.init)
+    let d0 := (Array.range s.net.nP).map (initD s)
+    let v0 := ofArr (evalParsA s 0 s.init (ofArr d0)).1
     if !(linkParsDefined s.net v0) then pure (reply [] (some "flush")) else
     match flushA s.net (pvOf v0) s.init with
     | none => pure (reply [] (some "flush"))
     | some xa =>
-        let (secs, stop) := loopA s budget 0 s.npts xa []
+        let (secs, stop) := loopA s budget 0 s.npts xa d0 []
         pure (reply secs stop)) args
 
 /-- reference path: `simulate` exactly as the theorems state it (no memoisation; tiny cases only) -/
@@ -537,6 +613,6 @@ def handleParsRef (args : List String) : Option String :=
   runP (do
     let s ← pSpec
     if !(wfSpec s) then pure "err wf" else
-    pure (showVals s.net.nP (evalPars s 0 s.init))) args
+    pure (showVals s.net.nP (evalPars s 0 s.init (initD s)))) args
 
 end Atomica.Closed
